@@ -147,13 +147,13 @@ func effectRole(fn *types.Func) string {
 }
 
 type diffLoop struct {
-	kind  string // Siacoin, Siafund, FileContract
-	rs    *ast.RangeStmt
-	head  *cfgx.Node
-	d     types.Object
-	class map[string][]eff
-	bad   []string
-	ephOK bool
+	kind   string // Siacoin, Siafund, FileContract
+	rs     *ast.RangeStmt
+	head   *cfgx.Node
+	d      types.Object
+	class  map[string][]eff
+	bad    []string
+	ephOK  bool
 	ephWhy string
 }
 
